@@ -1,6 +1,6 @@
 SPECIFICATION Spec
 CONSTANTS
   MaxM = 8
-  K = 3
+  K = 4
 INVARIANT Inv
 CHECK_DEADLOCK FALSE
